@@ -40,3 +40,604 @@ package geometry
 //@   arith order
 //@   requires poly != nil ==> PolyInv(poly)
 //@   ensures result == pointContainsPolyS(point, poly)
+
+// ---------------------------------------------------------------- Rect receiver (C03: B non-empty and bbox(B) inside the box; C02: boxes meet)
+
+//@ spec func rectContainsPointS(r Rect, p Point) bool { rectHas(r, p) }
+//@ spec func rectIntersectsPointS(r Rect, p Point) bool { rectHas(r, p) }
+//@ spec func rectContainsRectS(r Rect, o Rect) bool { rectInside(o, r) }
+//@ spec func rectIntersectsRectS(r Rect, o Rect) bool { rectsMeet(r, o) }
+//@ spec func rectContainsLineS(r Rect, l *Line) bool { l != nil && !lineEmptyS(l) && rectInside(lineRectS(l), r) }
+//@ spec func rectContainsPolyS(r Rect, P *Poly) bool { P != nil && !polyEmptyS(P) && rectInside(polyRectS(P), r) }
+
+//@ func Rect.ContainsRect
+//@   props C03 C02
+//@   arith order
+//@   ensures result == rectContainsRectS(rect, other)
+
+//@ func Rect.ContainsLine
+//@   props C03
+//@   arith order
+//@   requires line != nil ==> LineInv(line)
+//@   ensures result == rectContainsLineS(rect, line)
+
+//@ func Rect.ContainsPoly
+//@   props C03
+//@   arith order
+//@   requires poly != nil ==> PolyInv(poly)
+//@   ensures result == rectContainsPolyS(rect, poly)
+
+// ---------------------------------------------------------------- ring level: leaves (planar case analysis, uninterpreted) and proved compositions
+
+// leaves: the answers of the two ring-versus-segment case analyses
+//@ spec func rcsS(r Series, g Segment, e bool) bool
+//@ spec func risS(r Series, g Segment, e bool) bool
+
+//@ func ringContainsSegment
+//@   props C03 C02
+//@   trusted planar case analysis, bounded by govrac ringseg
+//@   requires RingInv(ring)
+//@   ensures result == rcsS(ring, seg, allowOnEdge)
+
+//@ func ringIntersectsSegment
+//@   props C02 C03
+//@   trusted planar case analysis, bounded by govrac ringseg
+//@   requires RingInv(ring)
+//@   ensures result == risS(ring, seg, allowOnEdge)
+
+// point against ring: closed membership (boundary counts) or open membership (boundary excluded)
+//@ spec func hitS(r Series, p Point, e bool) bool { ite(e, pipClosed(r,p), pipOpen(r,p)) }
+
+//@ func ringIntersectsPoint
+//@   props C01 C02
+//@   requires RingInv(ring)
+//@   ensures Hit: result.hit == hitS(ring, point, allowOnEdge)
+//@   ensures Idx: (result.idx != -1) == onAny(ring, point, sNseg(ring))
+//@   ensures IdxOn: result.idx != -1 ==> (0 <= result.idx && result.idx < sNseg(ring) && segOn(ring, result.idx, point))
+
+//@ spec func allPtsHitS(a Series, b Series, e bool) bool { forall i int :: 0 <= i && i < sNpts(b) ==> hitS(a, sPt(b,i), e) }
+//@ spec func allSegsInS(a Series, b Series, e bool) bool { forall i int :: 0 <= i && i < sNseg(b) ==> rcsS(a, sSeg(b,i), e) }
+// core test: bounding boxes nested, then a convex outer ring needs only the vertices of b inside, a concave one every segment of b
+//@ spec func rcrCoreS(a Series, b Series, e bool) bool { rectInside(sRect(b), sRect(a)) && ite(sConvex(a), allPtsHitS(a,b,e), allSegsInS(a,b,e)) }
+// ringContainsRing: both non-empty and (core test on b, or -- for b with at least 16 points -- core test on the bounding box of b)
+//@ spec func ringContainsRingS(a Series, b Series, e bool) bool opaque {
+//@     !sEmpty(a) && !sEmpty(b) && ((sNpts(b) >= 16 && rcrCoreS(a, boxRect(sRect(b)), e)) || rcrCoreS(a, b, e)) }
+
+//@ func ringContainsRing
+//@   props C03 C02
+//@   requires RingInv(ring) && SeriesInv(other)
+//@   ensures result == ringContainsRingS(ring, other, allowOnEdge)
+//@   decreases ite(sNpts(other) >= 16, 1, 0)
+//@   loop 0 invariant 0 <= i && i <= otherNumPoints && otherNumPoints == sNpts(other) && (forall j int :: 0 <= j && j < i ==> hitS(ring, sPt(other,j), allowOnEdge))
+//@   loop 0 decreases otherNumPoints - i
+//@   loop 1 invariant 0 <= i && i <= otherNumSegments && otherNumSegments == sNseg(other) && (forall j int :: 0 <= j && j < i ==> rcsS(ring, sSeg(other,j), allowOnEdge))
+//@   loop 1 decreases otherNumSegments - i
+
+//@ spec func rectAreaS(r Rect) real { (r.Max.X - r.Min.X) * (r.Max.Y - r.Min.Y) }
+//@ func Rect.Area
+//@   props C02
+//@   ensures result == rectAreaS(rect)
+
+// some segment of b intersects ring a
+//@ spec func risAnyS(a Series, b Series, e bool) bool { exists i int :: 0 <= i && i < sNseg(b) && risS(a, sSeg(b,i), e) }
+// ringIntersectsRing: both non-empty, bounding boxes meet, and some segment of the ring with the smaller box intersects the other ring
+// (on equal box areas: some segment of b intersects a)
+//@ spec func ringIntersectsRingS(a Series, b Series, e bool) bool opaque {
+//@     !sEmpty(a) && !sEmpty(b) && rectsMeet(sRect(a), sRect(b)) &&
+//@     ite(rectAreaS(sRect(b)) > rectAreaS(sRect(a)), risAnyS(b, a, e), risAnyS(a, b, e)) }
+
+//@ func ringIntersectsRing
+//@   props C02 C03
+//@   requires RingInv(ring) && RingInv(other)
+//@   ensures result == ringIntersectsRingS(ring, other, allowOnEdge)
+//@   loop 0 invariant 0 <= i && i <= otherNumSegments && otherNumSegments == sNseg(other) && RingInv(ring)
+//@   loop 0 invariant ite(rectAreaS(sRect(old(other))) > rectAreaS(sRect(old(ring))), ring == old(other) && other == old(ring), ring == old(ring) && other == old(other))
+//@   loop 0 invariant forall j int :: 0 <= j && j < i ==> !risS(ring, sSeg(other,j), allowOnEdge)
+//@   loop 0 decreases otherNumSegments - i
+
+// ring against line string: the line's point series takes the place of the inner ring
+//@ spec func ringContainsLineS(r Series, l *Line, e bool) bool opaque { ringContainsRingS(r, l.baseSeries, e) }
+
+//@ func ringContainsLine
+//@   props C03 C02
+//@   requires RingInv(ring) && LineInv(line)
+//@   ensures result == ringContainsLineS(ring, line, allowOnEdge)
+
+// ringIntersectsLine: both non-empty, bounding boxes meet, and some vertex of the line is in the ring or some segment of the line intersects it
+//@ spec func anyPtHitS(a Series, b Series, e bool) bool { exists i int :: 0 <= i && i < sNpts(b) && hitS(a, sPt(b,i), e) }
+//@ spec func ringIntersectsLineS(r Series, l *Line, e bool) bool opaque {
+//@     !sEmpty(r) && !lineEmptyS(l) && rectsMeet(sRect(r), lineRectS(l)) && (anyPtHitS(r, l.baseSeries, e) || risAnyS(r, l.baseSeries, e)) }
+
+//@ func ringIntersectsLine
+//@   props C02 C03
+//@   requires RingInv(ring) && LineInv(line)
+//@   ensures result == ringIntersectsLineS(ring, line, allowOnEdge)
+//@   loop 0 invariant 0 <= i && i <= lineNumPoints && lineNumPoints == sNpts(line.baseSeries) && (forall j int :: 0 <= j && j < i ==> !hitS(ring, sPt(line.baseSeries,j), allowOnEdge))
+//@   loop 0 decreases lineNumPoints - i
+//@   loop 1 invariant 0 <= i && i <= lineNumSegments && lineNumSegments == sNseg(line.baseSeries) && !anyPtHitS(ring, line.baseSeries, allowOnEdge) && (forall j int :: 0 <= j && j < i ==> !risS(ring, sSeg(line.baseSeries,j), allowOnEdge))
+//@   loop 1 decreases lineNumSegments - i
+
+// ---------------------------------------------------------------- Poly receiver: exterior test plus hole rules
+
+//@ spec func polyContainsPointS(P *Poly, p Point) bool { P != nil && polyHas(P, p) }
+//@ spec func polyIntersectsPointS(P *Poly, p Point) bool { P != nil && polyHas(P, p) }
+
+// line inside polygon: inside the exterior (boundary allowed) and touching no hole's interior-or-boundary-crossing (hole boundary alone is allowed)
+//@ spec func polyContainsLineS(P *Poly, l *Line) bool {
+//@     P != nil && polyExt(P) != nil && l != nil && ringContainsLineS(polyExt(P), l, true) &&
+//@     (forall h int :: 0 <= h && h < polyNHoles(P) ==> !ringIntersectsLineS(polyHole(P,h), l, false)) }
+// line meets polygon: meets the exterior region and is not swallowed by a hole
+//@ spec func polyIntersectsLineS(P *Poly, l *Line) bool {
+//@     P != nil && polyExt(P) != nil && l != nil && ringIntersectsLineS(polyExt(P), l, true) &&
+//@     (forall h int :: 0 <= h && h < polyNHoles(P) ==> !ringContainsLineS(polyHole(P,h), l, false)) }
+
+//@ func Poly.ContainsLine
+//@   props C03
+//@   requires poly != nil ==> PolyInv(poly)
+//@   requires line != nil ==> LineInv(line)
+//@   ensures result == polyContainsLineS(poly, line)
+//@   loop 0 invariant forall h int :: 0 <= h && h < $i ==> !ringIntersectsLineS(polyHole(poly,h), line, false)
+//@   loop 0 assert polyHole(poly, $i) == polyHole
+
+//@ func Poly.IntersectsLine
+//@   props C02
+//@   requires poly != nil ==> PolyInv(poly)
+//@   requires line != nil ==> LineInv(line)
+//@   ensures result == polyIntersectsLineS(poly, line)
+//@   loop 0 invariant forall h int :: 0 <= h && h < $i ==> !ringContainsLineS(polyHole(poly,h), line, false)
+//@   loop 0 assert polyHole(poly, $i) == hole
+
+// polygon inside polygon: exterior of Q inside exterior of P (boundary allowed), and every hole H of P either does not
+// reach into the region of Q's exterior at all, or lies inside some hole of Q
+//@ spec func holeCoveredS(Q *Poly, H Series) bool { exists g int :: 0 <= g && g < polyNHoles(Q) && ringContainsRingS(polyHole(Q,g), H, true) }
+//@ spec func polyContainsPolyS(P *Poly, Q *Poly) bool {
+//@     P != nil && polyExt(P) != nil && Q != nil && polyExt(Q) != nil && ringContainsRingS(polyExt(P), polyExt(Q), true) &&
+//@     (forall h int :: 0 <= h && h < polyNHoles(P) ==> (!ringIntersectsRingS(polyHole(P,h), polyExt(Q), false) || holeCoveredS(Q, polyHole(P,h)))) }
+// polygons meet: exteriors meet, and neither exterior is swallowed by a hole of the other polygon
+//@ spec func polyIntersectsPolyS(P *Poly, Q *Poly) bool {
+//@     P != nil && polyExt(P) != nil && Q != nil && polyExt(Q) != nil && ringIntersectsRingS(polyExt(Q), polyExt(P), true) &&
+//@     (forall h int :: 0 <= h && h < polyNHoles(P) ==> !ringContainsRingS(polyHole(P,h), polyExt(Q), false)) &&
+//@     (forall g int :: 0 <= g && g < polyNHoles(Q) ==> !ringContainsRingS(polyHole(Q,g), polyExt(P), false)) }
+
+//@ func Poly.ContainsPoly
+//@   props C03
+//@   requires poly != nil ==> PolyInv(poly)
+//@   requires other != nil ==> PolyInv(other)
+//@   ensures result == polyContainsPolyS(poly, other)
+//@   loop 0 invariant contains && (forall h int :: 0 <= h && h < $i ==> (!ringIntersectsRingS(polyHole(poly,h), polyExt(other), false) || holeCoveredS(other, polyHole(poly,h))))
+//@   loop 0 assert polyHole(poly, $i) == polyHole
+//@   loop 1 invariant !contains && (forall g int :: 0 <= g && g < $i ==> !ringContainsRingS(polyHole(other,g), polyHole, true))
+//@   loop 1 assert polyHole(other, $i) == otherHole
+
+//@ func Poly.IntersectsPoly
+//@   props C02
+//@   requires poly != nil ==> PolyInv(poly)
+//@   requires other != nil ==> PolyInv(other)
+//@   ensures result == polyIntersectsPolyS(poly, other)
+//@   loop 0 invariant forall h int :: 0 <= h && h < $i ==> !ringContainsRingS(polyHole(poly,h), polyExt(other), false)
+//@   loop 0 assert polyHole(poly, $i) == hole
+//@   loop 1 invariant forall g int :: 0 <= g && g < $i ==> !ringContainsRingS(polyHole(other,g), polyExt(poly), false)
+//@   loop 1 assert polyHole(other, $i) == hole
+
+// rectangle argument: the rectangle acts as a (convex, 5-point, hole-free) ring  boxRect(r)
+//@ spec func polyContainsRectS(P *Poly, r Rect) bool {
+//@     P != nil && polyExt(P) != nil && ringContainsRingS(polyExt(P), boxRect(r), true) &&
+//@     (forall h int :: 0 <= h && h < polyNHoles(P) ==> !ringIntersectsRingS(polyHole(P,h), boxRect(r), false)) }
+//@ spec func polyIntersectsRectS(P *Poly, r Rect) bool {
+//@     P != nil && polyExt(P) != nil && ringIntersectsRingS(boxRect(r), polyExt(P), true) &&
+//@     (forall h int :: 0 <= h && h < polyNHoles(P) ==> !ringContainsRingS(polyHole(P,h), boxRect(r), false)) }
+
+//@ func Poly.ContainsRect
+//@   props C03
+//@   requires poly != nil ==> PolyInv(poly)
+//@   requires rectOK(rect)
+//@   ensures result == polyContainsRectS(poly, rect)
+
+//@ func Poly.IntersectsRect
+//@   props C02
+//@   requires poly != nil ==> PolyInv(poly)
+//@   requires rectOK(rect)
+//@   ensures result == polyIntersectsRectS(poly, rect)
+
+// ---------------------------------------------------------------- Rect receiver against Line / Poly (the rectangle as ring), and the mirrored Line methods
+
+//@ spec func rectIntersectsLineS(r Rect, l *Line) bool { l != nil && ringIntersectsLineS(boxRect(r), l, true) }
+//@ spec func rectIntersectsPolyS(r Rect, P *Poly) bool { polyIntersectsRectS(P, r) }
+//@ spec func lineIntersectsRectS(l *Line, r Rect) bool { rectIntersectsLineS(r, l) }
+//@ spec func lineIntersectsPolyS(l *Line, P *Poly) bool { polyIntersectsLineS(P, l) }
+
+//@ func Rect.IntersectsLine
+//@   props C02
+//@   requires line != nil ==> LineInv(line)
+//@   requires rectOK(rect)
+//@   ensures result == rectIntersectsLineS(rect, line)
+
+//@ func Rect.IntersectsPoly
+//@   props C02
+//@   requires poly != nil ==> PolyInv(poly)
+//@   requires rectOK(rect)
+//@   ensures result == rectIntersectsPolyS(rect, poly)
+
+//@ func Line.IntersectsRect
+//@   props C02
+//@   requires line != nil ==> LineInv(line)
+//@   requires rectOK(rect)
+//@   ensures result == lineIntersectsRectS(line, rect)
+
+//@ func Line.IntersectsPoly
+//@   props C02
+//@   requires line != nil ==> LineInv(line)
+//@   requires poly != nil ==> PolyInv(poly)
+//@   ensures result == lineIntersectsPolyS(line, poly)
+
+// ---------------------------------------------------------------- Line receiver
+
+//@ spec func lineContainsPointS(l *Line, p Point) bool { l != nil && lineHas(l, p) }
+//@ spec func lineIntersectsPointS(l *Line, p Point) bool { l != nil && lineHas(l, p) }
+
+// leaf: the answer of the segment walk of Line.ContainsLine on two non-empty lines (F3: the walk does not terminate on some
+// inputs; F4: it skips segments that are neither contained nor share an endpoint -- so this stays an uninterpreted name)
+//@ spec func lclS(l *Line, m *Line) bool
+// the same walk against the two-point line a -> b (the walk reads its argument only through the point sequence)
+//@ spec func lcsS(l *Line, a Point, b Point) bool
+//@ spec func lineContainsLineS(l *Line, m *Line) bool { l != nil && m != nil && !lineEmptyS(l) && !lineEmptyS(m) && lclS(l, m) }
+
+// weak invariant of the argument line (what the stack-allocated two-point line of Line.ContainsPoly satisfies: RingInv does not
+// bound the corners of the stored rectangle to the coordinate domain, so seriesInDomSeg of that temporary is not derivable)
+//@ spec func LineInvW(l *Line) bool { l != nil && dyn(l.baseSeries) == typeid(*baseSeries) && SeriesInv(l.baseSeries) }
+//@ func Line.ContainsLine
+//@   props C03
+//@   trusted segment walk with index rewinding: exactness and termination are false on the pinned tree (F3, F4); bounded by govrac lineline
+//@   requires line != nil ==> LineInv(line)
+//@   requires other != nil ==> LineInvW(other)
+//@   ensures result == lineContainsLineS(line, other)
+//@   ensures TwoPt: (line != nil && other != nil && !other.closed && len(other.points) == 2) ==> lclS(line, other) == lcsS(line, ptAt(other.points, 0), ptAt(other.points, 1))
+
+// line contains polygon / rectangle: only a polygon whose bounding box is degenerate fits; then the box diagonal must be contained
+//@ spec func lineContainsPolyS(l *Line, P *Poly) bool {
+//@     l != nil && P != nil && !lineEmptyS(l) && !polyEmptyS(P) &&
+//@     (polyRectS(P).Min.X == polyRectS(P).Max.X || polyRectS(P).Min.Y == polyRectS(P).Max.Y) && lcsS(l, polyRectS(P).Min, polyRectS(P).Max) }
+//@ spec func lineContainsRectS(l *Line, r Rect) bool {
+//@     l != nil && !lineEmptyS(l) && (r.Min.X == r.Max.X || r.Min.Y == r.Max.Y) && lcsS(l, r.Min, r.Max) }
+
+//@ func Line.ContainsPoly
+//@   props C03
+//@   requires line != nil ==> LineInv(line)
+//@   requires poly != nil ==> PolyInv(poly)
+//@   ensures result == lineContainsPolyS(line, poly)
+
+//@ func Line.ContainsRect
+//@   props C03
+//@   requires line != nil ==> LineInv(line)
+//@   requires rectOK(rect)
+//@   ensures result == lineContainsRectS(line, rect)
+
+// ---- Line x Line intersection: some segment of l and some segment of m share a point (C02, the property's own statement)
+//@ spec func segsMeetS(g Segment, h Segment) bool opaque { exists s real, t real :: meet(g.A, g.B, h.A, h.B, s, t) }
+//@ spec func segXLineS(g Segment, m *Line) bool opaque { exists j int :: 0 <= j && j < sNseg(m.baseSeries) && segsMeetS(g, sSeg(m.baseSeries,j)) }
+//@ spec func lineXLineS(l *Line, m *Line) bool opaque { exists i int :: 0 <= i && i < sNseg(l.baseSeries) && segXLineS(sSeg(l.baseSeries,i), m) }
+//@ spec func lineIntersectsLineS(l *Line, m *Line) bool {
+//@     l != nil && m != nil && !lineEmptyS(l) && !lineEmptyS(m) && rectsMeet(lineRectS(l), lineRectS(m)) && lineXLineS(l, m) }
+
+// a common point lies in both bounding boxes
+//@ lemma meetBox(a Point, b Point, c Point, d Point, s real, t real)
+//@   props C02 C19
+//@   requires meet(a,b,c,d,s,t)
+//@   ensures rectsMeet(segRect(mkSegment(c,d)), segRect(mkSegment(a,b)))
+//@ lemma segsMeetBox(g Segment, h Segment)
+//@   props C02
+//@   requires segsMeetS(g, h)
+//@   ensures rectsMeet(segRect(h), segRect(g)) && rectsMeet(segRect(g), segRect(h))
+//@   use forall s real, t real :: meetBox(g.A, g.B, h.A, h.B, s, t)
+//@ lemma segsMeetSym(g Segment, h Segment)
+//@   props C02 C12 C19
+//@   ensures segsMeetS(g, h) == segsMeetS(h, g)
+
+// the code's segment test IS "the two closed segments share a point" (from the verified contract of Segment.IntersectsSegment)
+//@ lemma segsMeetIntro(g Segment, h Segment, s real, t real)
+//@   props C02 C12
+//@   requires meet(g.A, g.B, h.A, h.B, s, t)
+//@   ensures segsMeetS(g, h)
+//@ lemma isegIsMeet(g Segment, h Segment)
+//@   props C02 C19
+//@   requires inDom(g.A) && inDom(g.B) && inDom(h.A) && inDom(h.B)
+//@   ensures isegS(g, h) == segsMeetS(g, h)
+//@   use contractOf_isegS(g, h)
+//@   use forall s real, t real :: segsMeetIntro(g, h, s, t)
+
+//@ lemma segXLineWitness(g Segment, m *Line, j int)
+//@   props C02
+//@   requires 0 <= j && j < sNseg(m.baseSeries) && segsMeetS(g, sSeg(m.baseSeries,j))
+//@   ensures segXLineS(g, m)
+//@ lemma lineXLineWitness(l *Line, m *Line, i int)
+//@   props C02
+//@   requires 0 <= i && i < sNseg(l.baseSeries) && segXLineS(sSeg(l.baseSeries,i), m)
+//@   ensures lineXLineS(l, m)
+// "segment j of m does not meet g", hidden so that the search invariant is a plain set fact (unfolded only by the two lemmas below)
+//@ spec func clearAt(g Segment, m *Line, j int) bool rec hidden { !segsMeetS(g, sSeg(m.baseSeries,j)) }
+//@ lemma clearIntro(g Segment, m *Line, j int)
+//@   props C02
+//@   reveal clearAt
+//@   requires !segsMeetS(g, sSeg(m.baseSeries,j))
+//@   ensures clearAt(g, m, j)
+//@ lemma clearElim(g Segment, m *Line, j int)
+//@   props C02
+//@   reveal clearAt
+//@   requires clearAt(g, m, j)
+//@   ensures !segsMeetS(g, sSeg(m.baseSeries,j))
+// the search reported exactly the segments of m whose box meets the box of g, and none of them meets g: then no segment of m meets g
+//@ lemma segXLineNone(seen set, g Segment, m *Line)
+//@   props C02
+//@   use forall j int :: clearElim(g, m, j)
+//@   requires forall j int :: seen[j] == (0 <= j && j < sNseg(m.baseSeries) && rectsMeet(segRect(sSeg(m.baseSeries,j)), segRect(g)))
+//@   requires forall j int :: seen[j] ==> clearAt(g, m, j)
+//@   ensures !segXLineS(g, m)
+//@   use forall j int :: segsMeetBox(g, sSeg(m.baseSeries,j))
+// the relation is symmetric
+//@ lemma lineXLineSym1(l *Line, m *Line)
+//@   props C02 C12
+//@   requires lineXLineS(l, m)
+//@   ensures lineXLineS(m, l)
+//@   use forall g Segment, h Segment :: segsMeetSym(g, h)
+//@   use forall i int, j int :: segXLineWitness(sSeg(m.baseSeries,j), l, i)
+//@   use forall j int :: lineXLineWitness(m, l, j)
+//@ lemma lineXLineSym(l *Line, m *Line)
+//@   props C02 C12
+//@   ensures lineXLineS(l, m) == lineXLineS(m, l)
+//@   use lineXLineSym1(l, m)
+//@   use lineXLineSym1(m, l)
+
+//@ func Line.IntersectsLine
+//@   props C02
+//@   requires line != nil ==> LineInv(line)
+//@   requires other != nil ==> LineInv(other)
+//@   ensures result == lineIntersectsLineS(line, other)
+//@   loop 0 invariant (line == old(line) && other == old(other)) || (line == old(other) && other == old(line))
+//@   loop 0 invariant 0 <= i && i <= lineNumSegments && lineNumSegments == sNseg(line.baseSeries) && old(line) != nil && old(other) != nil
+//@   loop 0 invariant forall i2 int :: 0 <= i2 && i2 < i ==> !segXLineS(sSeg(line.baseSeries,i2), other)
+//@   loop 0 decreases lineNumSegments - i
+//@   loop 0 assert sSeg(line.baseSeries, i) == bsSeg(line.baseSeries, i)
+//@   call 10 iterinv !intersects && (forall j int :: seen[j] ==> clearAt(segA, other, j))
+//@   call 10 iterstop intersects && segXLineS(segA, other) && lineXLineS(line, other)
+//@   call 10 use isegIsMeet(segA, sSeg(other.baseSeries, $idx))
+//@   call 10 use clearIntro(segA, other, $idx)
+//@   call 10 use segXLineWitness(segA, other, $idx)
+//@   call 10 use lineXLineWitness(line, other, i)
+//@   call 10 after use segXLineNone(seen, segA, other)
+//@   ret use lineXLineSym(line, other)
+
+// ---------------------------------------------------------------- C12: Move is the translation by (deltaX, deltaY) (any finite floats: order mode)
+
+//@ spec func movePt(p Point, dx real, dy real) Point { mkPoint(fadd(p.X, dx), fadd(p.Y, dy)) }
+
+//@ func Point.Move
+//@   props C12
+//@   arith order
+//@   ensures result == movePt(point, deltaX, deltaY)
+
+//@ func Rect.Move
+//@   props C12
+//@   arith order
+//@   ensures result == mkRect(movePt(rect.Min, deltaX, deltaY), movePt(rect.Max, deltaX, deltaY))
+
+//@ func Segment.Move
+//@   props C12
+//@   arith order
+//@   ensures result == mkSegment(movePt(seg.A, deltaX, deltaY), movePt(seg.B, deltaX, deltaY))
+
+// ---------------------------------------------------------------- C12: symmetries of the kernel specifications (pure lemmas, real arithmetic)
+
+//@ spec func trP(p Point, dx real, dy real) Point { mkPoint(p.X + dx, p.Y + dy) }
+//@ spec func scP(p Point, k real) Point { mkPoint(k * p.X, k * p.Y) }
+//@ spec func rxP(p Point) Point { mkPoint(0 - p.X, p.Y) }
+//@ spec func ryP(p Point) Point { mkPoint(p.X, 0 - p.Y) }
+//@ spec func dgP(p Point) Point { mkPoint(p.Y, p.X) }
+//@ spec func trR(r Rect, dx real, dy real) Rect { mkRect(trP(r.Min,dx,dy), trP(r.Max,dx,dy)) }
+
+// (a) translation
+//@ lemma crossTr(a Point, b Point, p Point, dx real, dy real)
+//@   props C12 C19
+//@   ensures cross(trP(a,dx,dy), trP(b,dx,dy), trP(p,dx,dy)) == cross(a,b,p)
+//@ lemma onSegTr(a Point, b Point, p Point, dx real, dy real)
+//@   props C12 C19 C01
+//@   ensures onSeg(trP(a,dx,dy), trP(b,dx,dy), trP(p,dx,dy)) == onSeg(a,b,p)
+//@ lemma rayInTr(a Point, b Point, p Point, dx real, dy real)
+//@   props C12 C19 C01
+//@   ensures rayIn(trP(a,dx,dy), trP(b,dx,dy), trP(p,dx,dy)) == rayIn(a,b,p)
+//@ lemma meetTr(a Point, b Point, c Point, d Point, s real, t real, dx real, dy real)
+//@   props C12 C19 C02
+//@   ensures meet(trP(a,dx,dy), trP(b,dx,dy), trP(c,dx,dy), trP(d,dx,dy), s, t) == meet(a,b,c,d,s,t)
+//@ lemma zcrossTr(a Point, b Point, c Point, dx real, dy real)
+//@   props C12 C18
+//@   ensures zcross(trP(a,dx,dy), trP(b,dx,dy), trP(c,dx,dy)) == zcross(a,b,c)
+//@ lemma rectsTr(a Rect, b Rect, p Point, dx real, dy real)
+//@   props C12 C02 C03
+//@   ensures Meet: rectsMeet(trR(a,dx,dy), trR(b,dx,dy)) == rectsMeet(a,b)
+//@   ensures Has: rectHas(trR(a,dx,dy), trP(p,dx,dy)) == rectHas(a,p)
+//@   ensures Inside: rectInside(trR(a,dx,dy), trR(b,dx,dy)) == rectInside(a,b)
+
+// (b) scaling by 2
+//@ lemma crossSc(a Point, b Point, p Point)
+//@   props C12 C19
+//@   ensures cross(scP(a,2), scP(b,2), scP(p,2)) == 4 * cross(a,b,p)
+//@ lemma onSegSc(a Point, b Point, p Point)
+//@   props C12 C19 C01
+//@   ensures onSeg(scP(a,2), scP(b,2), scP(p,2)) == onSeg(a,b,p)
+//@ lemma rayInSc(a Point, b Point, p Point)
+//@   props C12 C19 C01
+//@   ensures rayIn(scP(a,2), scP(b,2), scP(p,2)) == rayIn(a,b,p)
+//@ lemma meetSc(a Point, b Point, c Point, d Point, s real, t real)
+//@   props C12 C19 C02
+//@   ensures meet(scP(a,2), scP(b,2), scP(c,2), scP(d,2), s, t) == meet(a,b,c,d,s,t)
+//@ lemma zcrossSc(a Point, b Point, c Point)
+//@   props C12 C18
+//@   ensures zcross(scP(a,2), scP(b,2), scP(c,2)) == 4 * zcross(a,b,c)
+
+// (c) endpoint swap
+//@ lemma onSegSwap(a Point, b Point, p Point)
+//@   props C12 C19 C01
+//@   ensures onSeg(b,a,p) == onSeg(a,b,p)
+//@ lemma rayInSwap(a Point, b Point, p Point)
+//@   props C12 C19 C01
+//@   ensures rayIn(b,a,p) == rayIn(a,b,p)
+//@ lemma meetSwapFirst(a Point, b Point, c Point, d Point, s real, t real)
+//@   props C12 C19 C02
+//@   ensures meet(b,a,c,d,1-s,t) == meet(a,b,c,d,s,t)
+//@ lemma meetSwapSecond(a Point, b Point, c Point, d Point, s real, t real)
+//@   props C12 C19 C02
+//@   ensures meet(a,b,d,c,s,1-t) == meet(a,b,c,d,s,t)
+
+// (d) operand swap
+//@ lemma meetSwapOperands(a Point, b Point, c Point, d Point, s real, t real)
+//@   props C12 C19 C02
+//@   ensures meet(c,d,a,b,t,s) == meet(a,b,c,d,s,t)
+
+// (e) reflections x -> -x, y -> -y and the diagonal swap x <-> y  (rayIn is NOT invariant under these: the ray changes direction)
+//@ lemma onSegRefl(a Point, b Point, p Point)
+//@   props C12 C19 C01
+//@   ensures X: onSeg(rxP(a), rxP(b), rxP(p)) == onSeg(a,b,p)
+//@   ensures Y: onSeg(ryP(a), ryP(b), ryP(p)) == onSeg(a,b,p)
+//@   ensures D: onSeg(dgP(a), dgP(b), dgP(p)) == onSeg(a,b,p)
+//@ lemma meetRefl(a Point, b Point, c Point, d Point, s real, t real)
+//@   props C12 C19 C02
+//@   ensures X: meet(rxP(a), rxP(b), rxP(c), rxP(d), s, t) == meet(a,b,c,d,s,t)
+//@   ensures Y: meet(ryP(a), ryP(b), ryP(c), ryP(d), s, t) == meet(a,b,c,d,s,t)
+//@   ensures D: meet(dgP(a), dgP(b), dgP(c), dgP(d), s, t) == meet(a,b,c,d,s,t)
+//@ lemma zcrossRefl(a Point, b Point, c Point)
+//@   props C12 C18
+//@   ensures X: zcross(rxP(a), rxP(b), rxP(c)) == 0 - zcross(a,b,c)
+//@   ensures Y: zcross(ryP(a), ryP(b), ryP(c)) == 0 - zcross(a,b,c)
+//@   ensures D: zcross(dgP(a), dgP(b), dgP(c)) == 0 - zcross(a,b,c)
+//@ lemma crossRefl(a Point, b Point, p Point)
+//@   props C12 C19
+//@   ensures X: cross(rxP(a), rxP(b), rxP(p)) == 0 - cross(a,b,p)
+//@   ensures Y: cross(ryP(a), ryP(b), ryP(p)) == 0 - cross(a,b,p)
+//@   ensures D: cross(dgP(a), dgP(b), dgP(p)) == 0 - cross(a,b,p)
+
+// consequences at the level of "two closed segments share a point"
+//@ spec func trG(g Segment, dx real, dy real) Segment { mkSegment(trP(g.A,dx,dy), trP(g.B,dx,dy)) }
+//@ spec func flipG(g Segment) Segment { mkSegment(g.B, g.A) }
+//@ lemma segsMeetTr(g Segment, h Segment, dx real, dy real)
+//@   props C12 C02
+//@   ensures segsMeetS(trG(g,dx,dy), trG(h,dx,dy)) == segsMeetS(g, h)
+//@ lemma flipIntro(a Point, b Point, c Point, d Point, s real, t real)
+//@   props C02 C12
+//@   requires meet(a,b,c,d,s,t)
+//@   ensures segsMeetS(mkSegment(b,a), mkSegment(c,d)) && segsMeetS(mkSegment(a,b), mkSegment(d,c))
+//@   use segsMeetIntro(mkSegment(b,a), mkSegment(c,d), 1-s, t)
+//@   use segsMeetIntro(mkSegment(a,b), mkSegment(d,c), s, 1-t)
+//@ lemma segsMeetFlip1(g Segment, h Segment)
+//@   props C12 C02
+//@   requires segsMeetS(g, h)
+//@   ensures segsMeetS(flipG(g), h) && segsMeetS(g, flipG(h))
+//@   use forall s real, t real :: flipIntro(g.A, g.B, h.A, h.B, s, t)
+//@ lemma segsMeetFlip(g Segment, h Segment)
+//@   props C12 C02
+//@   ensures segsMeetS(flipG(g), h) == segsMeetS(g, h) && segsMeetS(g, flipG(h)) == segsMeetS(g, h)
+//@   use segsMeetFlip1(g, h)
+//@   use segsMeetFlip1(flipG(g), h)
+//@   use segsMeetFlip1(g, flipG(h))
+//@ spec func scG(g Segment, k real) Segment { mkSegment(scP(g.A,k), scP(g.B,k)) }
+//@ spec func rxG(g Segment) Segment { mkSegment(rxP(g.A), rxP(g.B)) }
+//@ spec func ryG(g Segment) Segment { mkSegment(ryP(g.A), ryP(g.B)) }
+//@ spec func dgG(g Segment) Segment { mkSegment(dgP(g.A), dgP(g.B)) }
+//@ lemma segsMeetSc(g Segment, h Segment)
+//@   props C12 C02
+//@   ensures segsMeetS(scG(g,2), scG(h,2)) == segsMeetS(g, h)
+//@ lemma segsMeetRefl(g Segment, h Segment)
+//@   props C12 C02
+//@   ensures X: segsMeetS(rxG(g), rxG(h)) == segsMeetS(g, h)
+//@   ensures Y: segsMeetS(ryG(g), ryG(h)) == segsMeetS(g, h)
+//@   ensures D: segsMeetS(dgG(g), dgG(h)) == segsMeetS(g, h)
+
+// ---------------------------------------------------------------- C03: what the bounding-box tests of the Point and Rect receivers mean for the positions of B
+// (the constructors give  stored rectangle == bboxOf(points, len(points)),  see NewLine / newRing)
+
+//@ spec func allPtsEqS(ps []Point, p Point, k int) bool rec { k <= 0 || (allPtsEqS(ps,p,k-1) && ptAt(ps,k-1) == p) }
+//@ spec func allPtsInS(ps []Point, r Rect, k int) bool rec { k <= 0 || (allPtsInS(ps,r,k-1) && rectHas(r, ptAt(ps,k-1))) }
+// bbox == (p,p)  <=>  every position equals p
+//@ lemma bboxPoint(ps []Point, p Point, k int)
+//@   props C03 C11
+//@   requires 1 <= k
+//@   ensures (bboxOf(ps,k) == mkRect(p,p)) == allPtsEqS(ps,p,k)
+//@   induction k
+//@ lemma bboxOK(ps []Point, k int)
+//@   props C03 C11
+//@   requires 1 <= k
+//@   ensures rectOK(bboxOf(ps,k))
+//@   induction k
+// bbox inside r  <=>  every position inside r
+//@ lemma bboxInsideAll(ps []Point, r Rect, k int)
+//@   props C03 C11
+//@   requires 1 <= k
+//@   ensures rectInside(bboxOf(ps,k), r) == allPtsInS(ps,r,k)
+//@   induction k
+//@   use bboxOK(ps, k-1)
+
+// ---- the property-level reading of Line x Line: under the constructor-established fact that the stored rectangle covers
+// every segment endpoint, the bounding-box pre-check and the emptiness tests are implied, i.e.
+// lineIntersectsLineS(l,m)  <=>  exists i,j :: the closed segments l.seg(i), m.seg(j) share a point
+//@ spec func LineBoxInv(l *Line) bool opaque {
+//@     forall j int :: 0 <= j && j < sNseg(l.baseSeries) ==> rectHas(lineRectS(l), sSeg(l.baseSeries,j).A) && rectHas(lineRectS(l), sSeg(l.baseSeries,j).B) }
+// a point of the line lies in the stored rectangle
+//@ lemma lineHasInRectK(l *Line, p Point, k int)
+//@   props C01 C02 C03
+//@   requires l != nil && LineInv(l) && LineBoxInv(l) && k <= sNseg(l.baseSeries) && onAny(l.baseSeries, p, k)
+//@   ensures rectHas(lineRectS(l), p)
+//@   induction k
+//@   use onInBox(sSeg(l.baseSeries,k-1).A, sSeg(l.baseSeries,k-1).B, p, lineRectS(l))
+//@   have In: k >= 1 ==> (rectHas(lineRectS(l), sSeg(l.baseSeries,k-1).A) && rectHas(lineRectS(l), sSeg(l.baseSeries,k-1).B))
+//@ lemma lineHasInRect(l *Line, p Point)
+//@   props C01 C02 C03
+//@   requires l != nil && LineInv(l) && LineBoxInv(l) && lineHas(l, p)
+//@   ensures rectHas(lineRectS(l), p)
+//@   use lineHasInRectK(l, p, sNseg(l.baseSeries))
+//@ lemma lxlBoxes(l *Line, m *Line, i int, j int)
+//@   props C02
+//@   requires l != nil && m != nil && LineInv(l) && LineInv(m) && LineBoxInv(l) && LineBoxInv(m)
+//@   requires 0 <= i && i < sNseg(l.baseSeries) && 0 <= j && j < sNseg(m.baseSeries) && segsMeetS(sSeg(l.baseSeries,i), sSeg(m.baseSeries,j))
+//@   ensures rectsMeet(lineRectS(l), lineRectS(m)) && !lineEmptyS(l) && !lineEmptyS(m)
+//@   use segsMeetBox(sSeg(l.baseSeries,i), sSeg(m.baseSeries,j))
+//@ lemma lineIntersectsLineClean(l *Line, m *Line)
+//@   props C02 C12
+//@   requires l != nil && m != nil && LineInv(l) && LineInv(m) && LineBoxInv(l) && LineBoxInv(m)
+//@   ensures lineIntersectsLineS(l, m) == lineXLineS(l, m)
+//@   use forall i int, j int :: lxlBoxes(l, m, i, j)
+//@ lemma lineIntersectsLineSym(l *Line, m *Line)
+//@   props C02 C12
+//@   ensures lineIntersectsLineS(l, m) == lineIntersectsLineS(m, l)
+//@   use lineXLineSym(l, m)
+
+// ---------------------------------------------------------------- C12 / C04: Move on series, lines, polygons re-creates the series from the translated points
+
+//@ spec func bsPoints(s *baseSeries) []Point { s.points }
+// q is the translate of ps
+//@ spec func movedOf(q []Point, ps []Point, dx real, dy real) bool opaque {
+//@     len(q) == len(ps) && (forall i int :: 0 <= i && i < len(ps) ==> ptAt(q,i) == trP(ptAt(ps,i), dx, dy)) }
+// every translate of ps satisfies the constructor precondition (in-domain coordinates, exact shoelace sums)
+//@ spec func moveExactS(ps []Point, dx real, dy real) bool opaque { forall q []Point :: movedOf(q, ps, dx, dy) ==> ptsExact(q) }
+//@ lemma movedIntro(q []Point, ps []Point, dx real, dy real)
+//@   props C12
+//@   requires len(q) == len(ps) && (forall i int :: 0 <= i && i < len(ps) ==> ptAt(q,i) == trP(ptAt(ps,i), dx, dy))
+//@   ensures movedOf(q, ps, dx, dy)
+
+// engine limitation: the body stores into a FIELD of an element of a local slice (`points[i].X = ...`, series.go:114), which the
+// executor rejects ("unsupported: heap store"); the contract below is what the loop + makeSeries + buildIndex contracts give.
+//@ func baseSeries.Move
+//@   props C12 C04
+//@   trusted executor cannot model `points[i].X = v` (field store into a slice element); Move is covered by the bounded move suite (govrac move)
+//@   requires series != nil
+//@   requires Exact: moveExactS(series.points, deltaX, deltaY)
+//@   ensures Fresh: result != nil && isBS(result) && !old($alloc)[result]
+//@   ensures Closed: bsClosed(result) == series.closed
+//@   ensures Points: movedOf(bsPoints(result), series.points, deltaX, deltaY)
+//@   ensures Index: IndexInv(result)
+//@   ensures Rect: !degenerate(series.points, series.closed) ==> bsRectOf(result) == bboxOf(bsPoints(result), len(bsPoints(result)))
+
+//@ spec func lineMovedS(n *Line, l *Line, dx real, dy real) bool {
+//@     n != nil && bsClosed(n.baseSeries) == bsClosed(l.baseSeries) && movedOf(bsPoints(n.baseSeries), bsPoints(l.baseSeries), dx, dy) && IndexInv(n.baseSeries) }
+//@ func Line.Move
+//@   props C12 C04
+//@   requires line != nil ==> moveExactS(line.baseSeries.points, deltaX, deltaY)
+//@   ensures Nil: (result == nil) == (line == nil)
+//@   ensures Moved: line != nil ==> (lineMovedS(result, line, deltaX, deltaY) && !old($alloc)[result])
